@@ -104,10 +104,26 @@ def check_breaker(ctx: ExecutionContext) -> None:
         return
 
     decision = ctx.breaker.allow()
-    ctx.emit_breaker_event(decision.event, decision.state)
+    emit_admission_event(ctx, decision)
 
     if not decision.allowed:
         raise CircuitOpenError(decision.state.value)
+
+
+def emit_admission_event(ctx: ExecutionContext, decision: Any) -> None:
+    """
+    Emit the event of an allow() decision.
+
+    The call is not yet inside the try/finally that settles the breaker, so if an
+    observability hook is interrupted here (KeyboardInterrupt, SystemExit, task
+    cancellation) the slot just taken must be given back.
+    """
+    try:
+        ctx.emit_breaker_event(decision.event, decision.state)
+    except BaseException:
+        if decision.allowed:
+            record_cancel(ctx)
+        raise
 
 
 def record_success(ctx: ExecutionContext) -> None:
